@@ -71,6 +71,7 @@ def _trie_scenario(I, loc):
 
 CONTRACTS += [
     Contract('c16.trie.insert_then_find.bounded', TRIE + '.find', ['C16'], max_paths=6000,
+             bounded='phrases [a1,a2] (two ids) and [b1], query of three tokens; token values and ids symbolic',
              params=dict(a1=Str(3), a2=Str(3), b1=Str(3), q0=Str(3), q1=Str(3), q2=Str(3), ida=Str(3), idb=Str(3), idc=Str(3),
                          self=Expr('build_trie([[a1, a2], [b1], [a1, a2]], [ida, idb, idc])'),
                          query_text=Expr('[q0, q1, q2]')),
@@ -161,6 +162,7 @@ CONTRACTS += [
              ensures=[('no-extras', 'len(result) == 0')],
              note='known finding KF-C16-1 (phrase consisting of spaces)'),
     Contract('c16.matcher.end_to_end.bounded', M + 'string_matcher.py::StringMatcher.find', ['C16'], max_recursion=2, unroll=8,
+             bounded='three phrases, four concrete queries',
              params=dict(self=Expr('build_string_matcher(["us $", "$", "kg"])'), k=Int(0, 3),
                          tokenized_query=Expr('["5 us $ and 3kg", "us$ 4", "$$", "kg kg us"][k]')),
              ensures=[('matches-of-the-listed-phrases-at-token-boundaries',
